@@ -33,4 +33,4 @@ For EACH change k = 1..{n} deliver in {out}/m<k>/ :
   - patch.diff : output of `git -C {wt} diff` for that change alone (relative to the unmodified HEAD; it must apply with `git apply` to a clean checkout)
   - demo.py : a small self-contained Python script (run as `PYTHONPATH=<checkout>/src /venv/bin/python demo.py`) that exits 0 and prints PASS on the unmodified code and exits 1 and prints FAIL (with a short explanation of the wrong behaviour) on the changed code. The demo must demonstrate a violation of the PROPERTY as stated (for compiler-output properties, a tiny IC10 interpreter inside the demo, or a direct comparison of emitted text that makes the semantic difference evident, is fine).
   - meta.json : {{"property": "{pid}", "summary": "<one sentence: what was changed>", "needs": "<what specific input/sequence/option combination is needed for the breakage to manifest>", "files": [...]}}
-Before finishing each change: (1) apply it, run the full test suite and confirm it still passes, (2) run demo.py and confirm FAIL, (3) `git -C {wt} checkout -- .` to undo, run demo.py and confirm PASS. Leave the worktree clean (no modifications) at the end. Finally reply with a short list of the changes you delivered and whether each was confirmed (tests pass, demo fails with / passes without).""")
+Before finishing each change: (1) apply it, run the full test suite and confirm it still passes, (2) run demo.py and confirm FAIL, (3) `git -C {wt} checkout -- .` to undo, run demo.py and confirm PASS. Do NOT use `git stash` (it is shared between all worktrees of the repository and other people work in theirs); use `git diff > file`, `git checkout -- .` and `git apply file`. Leave the worktree clean (no modifications) at the end. Finally reply with a short list of the changes you delivered and whether each was confirmed (tests pass, demo fails with / passes without).""")
